@@ -44,7 +44,9 @@ EXTENDS Integers, Sequences, FiniteSets, TLC, Json
 
 CONSTANTS EmitEdges,   \* TRUE: print one EDGE line per explored transition
           MaxReq,      \* requests are served while fewer than MaxReq of them had an effect
-          Mut          \* "none" or the name of a removed guard (relevance configurations)
+          Mut,         \* "none" or the name of a removed guard (relevance configurations)
+          Reqs         \* "all": every request class; "plain": the well-formed-looking classes only (one header,
+                       \* one protocol, known names, ids a/b, valid or garbage bodies) so that longer sequences fit
 
 None == "none"
 Names   == {"db", "nosuch"}
@@ -82,7 +84,7 @@ Allowed(ep) == CASE ep = "halt" -> {"POST", "DELETE"}
 Endpoints == {"stream", "tx", "halt", "handoff", "promote", "import", "export", "info", "events"}
 
 (* ---- the enumerated request classes ---- *)
-Requests ==
+AllRequests ==
        {R("stream", "POST", pc, "na", h, p, b) : pc \in {"missing", "unknown", "valid"}, h \in Hdrs, p \in Protos, b \in Bodies}
   \cup {R("tx", "POST", pc, "na", h, p, b) : pc \in PCs, h \in Hdrs, p \in Protos, b \in TxBodies}
   \cup {R("halt", m, pc, id, h, p, "empty") : m \in {"POST", "DELETE"}, pc \in PCs, id \in Ids, h \in Hdrs, p \in Protos}
@@ -97,6 +99,13 @@ Requests ==
   \cup {R(ep, m, "valid", IF ep = "halt" THEN "a" ELSE "na", "foreign", p, b) :
            ep \in Endpoints, m \in Methods, p \in Protos, b \in Small}
 
+Plain(r) == /\ r.hdr = "foreign" /\ r.proto = "h2c"
+            /\ r.pc = "valid"
+            /\ r.id \in {"na", "a", "b"}
+            /\ r.body \in {"valid", "garbage", "empty"}
+            /\ r.m \in Allowed(r.ep)
+Requests == IF Reqs = "plain" THEN {r \in AllRequests : Plain(r)} ELSE AllRequests
+
 (* ---- the decision table ---- *)
 NameParam(ep) == ep \in {"tx", "halt", "import", "export"}
 NameOf(r)     == IF r.pc = "valid" THEN "db" ELSE "nosuch"
@@ -104,7 +113,9 @@ Exists(r)     == r.pc \in {"valid", "unknown"} /\ dbs[NameOf(r)].ex
 NeedsDB(r)    == r.ep \in {"tx", "export"} \/ (r.ep = "halt" /\ r.m = "DELETE")
 BodyBad(r)    == \/ r.ep \in {"tx", "import"} /\ r.body # "valid"
                  \/ r.ep = "stream" /\ r.body \in {"empty", "truncated", "oversized"}
-PrimaryOnly(ep) == ep \in {"stream", "tx", "halt", "handoff", "import"}
+\* DELETE /halt is served by every role: a node that granted a halt lock while it was primary lets the holder
+\* give it back after a demotion as well (the alternative is waiting for the lock to expire)
+PrimaryOnly(r) == r.ep \in {"stream", "tx", "handoff", "import"} \/ (r.ep = "halt" /\ r.m = "POST")
 
 \* first applicable reason, in a fixed order; "ok" = acceptable
 Why(r) ==
@@ -119,7 +130,7 @@ Why(r) ==
   ELSE IF NeedsDB(r) /\ ~Exists(r) THEN "db-not-found"
   ELSE IF r.ep = "halt" /\ r.id = "zero" THEN "id-zero"
   ELSE IF BodyBad(r) THEN "body-" \o r.body
-  ELSE IF PrimaryOnly(r.ep) /\ role # "primary" THEN "not-primary"
+  ELSE IF PrimaryOnly(r) /\ role # "primary" THEN "not-primary"
   ELSE IF r.ep = "handoff" /\ r.pc = "unknown" THEN "node-not-connected"
   ELSE IF r.ep = "promote" /\ role = "noprimary" THEN "no-primary-known"
   \* a forwarded transaction needs the halt lock it names to be granted (holder check, repaired);
@@ -156,7 +167,8 @@ Effect(r) ==
     [] r.ep = "halt" /\ r.m = "DELETE" ->
          IF dbs[nm].halt = r.id
          THEN /\ dbs' = [dbs EXCEPT ![nm] = [@ EXCEPT !.halt = None]]
-              /\ UNCHANGED role
+              \* a demoted primary that was waiting for this lock finishes its recovery and follows the new primary
+              /\ role' = IF role = "noprimary" /\ \A x \in Names \ {nm} : dbs[x].halt = None THEN "replica" ELSE role
          ELSE UNCHANGED <<role, dbs>>
     [] r.ep = "handoff" ->
          \* the old primary recovers every database on its way to becoming a replica; that recovery waits for
@@ -226,7 +238,11 @@ InvalidChangesNothing ==
 ReadOnlyChangesNothing ==
   [][ last'.req.ep \in {"stream", "export", "info", "events", "other"} => UNCHANGED <<role, dbs>> ]_vars
 
-\* only a primary's state can be changed through the API, except for the promotion of a replica
+\* only a primary's state can be changed through the API, except for the promotion of a replica and for the
+\* holder giving back a halt lock that the node granted while it was primary (nothing but the lock goes away)
 OnlyPrimaryChanges ==
-  [][ (role # "primary" /\ <<role, dbs>>' # <<role, dbs>>) => (last'.req.ep = "promote" /\ role = "replica" /\ UNCHANGED dbs) ]_vars
+  [][ (role # "primary" /\ <<role, dbs>>' # <<role, dbs>>) =>
+        \/ (last'.req.ep = "promote" /\ role = "replica" /\ UNCHANGED dbs)
+        \/ (last'.req.ep = "halt" /\ last'.req.m = "DELETE"
+              /\ \A nm \in Names : dbs'[nm].ex = dbs[nm].ex /\ dbs'[nm].pos = dbs[nm].pos /\ dbs'[nm].halt \in {dbs[nm].halt, None}) ]_vars
 ====
